@@ -6,15 +6,16 @@
 From Coq Require Import List Arith Bool Lia.
 From RecordUpdate Require Import RecordSet.
 From SV Require Import Base.Base IR.State IR.NS IR.Ops Xform.Clone Xform.Strs Xform.Xform
-  Proofs.Frame Proofs.Inv1a Proofs.Inv2a Proofs.InvW Proofs.C01_full Proofs.Fresh Proofs.CloneInv Proofs.RefK Proofs.CloneRef.
+  Proofs.Frame Proofs.Inv1a Proofs.Inv2a Proofs.InvW Proofs.C01_full Proofs.Fresh Proofs.NsInv Proofs.CloneInv Proofs.RefK Proofs.CloneRef Proofs.CloneT.
 Import ListNotations RecordSetNotations.
 
-Definition UI (s : state) : Prop := Inv1a s /\ Inv2a s /\ Fresh s /\ RefK s.
+Definition UI (s : state) : Prop := Inv1a s /\ Inv2a s /\ Fresh s /\ RefK s /\ InvT s.
 
 Lemma ui_struct s s' : struct_eq s s' -> UI s -> UI s'.
 Proof.
-  intros H [I [I2 [F K]]]. split; [exact (inv1a_cont _ _ (struct_cont _ _ H) I)|].
-  split; [exact (inv2a_ref _ _ (struct_ref _ _ H) I2)|]. split; [exact (fresh_frame _ _ (struct_frame _ _ H) F)|exact (refk_rq _ _ (rq_struct _ _ H) K)].
+  intros H [I [I2 [F [K T]]]]. split; [exact (inv1a_cont _ _ (struct_cont _ _ H) I)|].
+  split; [exact (inv2a_ref _ _ (struct_ref _ _ H) I2)|]. split; [exact (fresh_frame _ _ (struct_frame _ _ H) F)|].
+  split; [exact (refk_rq _ _ (rq_struct _ _ H) K)|exact (tstep_invt _ _ (tstep_struct _ _ H) T)].
 Qed.
 
 Definition UP (r : XR) : Prop := snd r = None -> UI (st (fst r)).
@@ -32,14 +33,14 @@ Proof. intros H Hk. apply up_liftR; [|exact Hk]. intros _. eapply ui_struct; [ap
 
 Lemma up_make_instance_unique x inst : UI (st x) -> UP (make_instance_unique x inst).
 Proof.
-  intros [I [I2 [F K]]]. unfold make_instance_unique.
+  intros [I [I2 [F [K T]]]]. unfold make_instance_unique.
   destruct (iref (st x) inst) as [d|] eqn:Ei; [|intro H; discriminate].
   pose proof (ref_lt _ _ _ K F Ei) as Hd.
   destruct (par (st x) RDefs d) as [lib|]; [|intro H; discriminate].
   pose proof (clone_definition_inv1a (st x) d I F) as HI. pose proof (clone_definition_fresh (st x) d I F) as HF.
-  pose proof (clone_definition_inv2a (st x) d I I2 F K Hd) as HR.
-  destruct (clone_definition (st x) d) as [r d']. cbn [fst snd] in HI, HF, HR.
-  apply up_liftR; [intro Hok; destruct (HR Hok) as [HR1 HR2]; split; [apply HI; exact Hok|split; [exact HR1|split; [apply HF; exact Hok|exact HR2]]]|].
+  pose proof (clone_definition_inv2a (st x) d I I2 F K Hd) as HR. pose proof (clone_definition_invt (st x) d I F T) as HTc.
+  destruct (clone_definition (st x) d) as [r d']. cbn [fst snd] in HI, HF, HR, HTc.
+  apply up_liftR; [intro Hok; destruct (HR Hok) as [HR1 HR2]; split; [apply HI; exact Hok|split; [exact HR1|split; [apply HF; exact Hok|split; [exact HR2|apply HTc; exact Hok]]]]|].
   intros x1 U1.
   set (named := match get_str (st x1) d str_NAME with Some nm => _ | None => _ end).
   assert (Hn : UP named).
@@ -50,15 +51,18 @@ Proof.
   destruct named as [x5 [e|]]; [intro H; discriminate|].
   assert (U5 : UI (st x5)) by (apply Hn; reflexivity).
   apply up_liftR.
-  - intros _. destruct U5 as [I5 [R5 [F5 K5]]]. split; [apply op_add_inv1a; exact I5|].
-    split; [exact (re_inv2a _ _ R5 (re_op_add _ _ _ _ _))|]. split; [apply fresh_op_add; exact F5|exact (refk_rq _ _ (rq_op_add _ _ _ _ _) K5)].
-  - intros x6 [I6 [R6 [F6 K6]]].
+  - intros _. destruct U5 as [I5 [R5 [F5 [K5 T5]]]]. split; [apply op_add_inv1a; exact I5|].
+    split; [exact (re_inv2a _ _ R5 (re_op_add _ _ _ _ _))|]. split; [apply fresh_op_add; exact F5|].
+    split; [exact (refk_rq _ _ (rq_op_add _ _ _ _ _) K5)|exact (tstep_invt _ _ (tstep_op_add _ _ _ _ _) T5)].
+  - intros x6 [I6 [R6 [F6 [K6 T6]]]].
     pose proof (op_set_reference_inv2a (st x6) inst (Some d') R6) as HS.
     destruct (op_set_reference (st x6) inst (Some d')) as [s7 [e|]] eqn:Es; cbn [liftR]; [intro H; discriminate|].
     intros _. cbn [fst st]. cbn [fst snd] in HS.
     pose proof (ce_op_set_reference (st x6) inst (Some d')) as Hce. pose proof (fresh_op_set_reference (st x6) inst (Some d') F6) as Hf.
-    pose proof (rq_op_set_reference (st x6) inst (Some d')) as Hq. rewrite Es in Hce, Hf, Hq. cbn [fst] in Hce, Hf, Hq.
-    split; [exact (ce_inv1a _ _ I6 Hce)|]. split; [apply HS; discriminate|]. split; [exact Hf|exact (refk_rq _ _ Hq K6)].
+    pose proof (rq_op_set_reference (st x6) inst (Some d')) as Hq. pose proof (tstep_op_set_reference (st x6) inst (Some d')) as Ht.
+    rewrite Es in Hce, Hf, Hq, Ht. cbn [fst] in Hce, Hf, Hq, Ht.
+    split; [exact (ce_inv1a _ _ I6 Hce)|]. split; [apply HS; discriminate|]. split; [exact Hf|].
+    split; [exact (refk_rq _ _ Hq K6)|exact (tstep_invt _ _ Ht T6)].
 Qed.
 
 Lemma up_uniq_loop : forall fuel x queue, UI (st x) -> UP (uniq_loop fuel x queue).
@@ -92,22 +96,23 @@ Qed.
 Lemma reachable_ui ops : UI (run ops init).
 Proof.
   pose proof (C01_full.reachable_inv ops) as HI.
-  split; [apply (inv_a _ HI)|]. split; [apply (inv_r _ HI)|]. split; [apply reachable_fresh|apply reachable_refk].
+  split; [apply (inv_a _ HI)|]. split; [apply (inv_r _ HI)|]. split; [apply reachable_fresh|]. split; [apply reachable_refk|].
+  apply (reachable_nsinv ops).
 Qed.
 
 (* in every state reachable by editing calls, with any counters and any fuel *)
 Theorem uniquify_reachable ops u f fuel n x' :
-  uniquify fuel (mkX (run ops init) u f) n = (x', None) -> Inv1a (st x') /\ Inv2a (st x').
+  uniquify fuel (mkX (run ops init) u f) n = (x', None) -> Inv1a (st x') /\ Inv2a (st x') /\ InvT (st x').
 Proof.
-  intro E. destruct (uniquify_inv fuel (mkX (run ops init) u f) n x' (reachable_ui ops) E) as [A [B _]]. split; assumption.
+  intro E. destruct (uniquify_inv fuel (mkX (run ops init) u f) n x' (reachable_ui ops) E) as [A [B [_ [_ C]]]]. split; [exact A|split; assumption].
 Qed.
 
 (* Definition.clone alone, in every reachable state, for a definition that exists *)
 Theorem clone_definition_reachable ops d :
   let s := run ops init in
   d < next s -> snd (fst (clone_definition s d)) = None ->
-  Inv1a (fst (fst (clone_definition s d))) /\ Inv2a (fst (fst (clone_definition s d))).
+  Inv1a (fst (fst (clone_definition s d))) /\ Inv2a (fst (fst (clone_definition s d))) /\ InvT (fst (fst (clone_definition s d))).
 Proof.
-  cbn zeta. intros Hd Hok. destruct (reachable_ui ops) as [I [I2 [F K]]].
-  split; [apply clone_definition_inv1a; assumption|apply clone_definition_inv2a; assumption].
+  cbn zeta. intros Hd Hok. destruct (reachable_ui ops) as [I [I2 [F [K T]]]].
+  split; [apply clone_definition_inv1a; assumption|]. split; [apply clone_definition_inv2a; assumption|apply clone_definition_invt; assumption].
 Qed.
